@@ -117,7 +117,7 @@ theorem qPopFront_none {cfg : Cfg} {q : List Job} (h : qPopFront cfg q = none) :
 
 /-! ### the factory queue: `maybe_enqueue` -/
 
-def loadshedEv (hasHandler : Bool) (j : Job) : Ev := .discard .loadshed j.id hasHandler
+def loadshedEv (h : Option Nat) (j : Job) : Ev := .discard .loadshed j.id h
 
 /-- The shedding loop of `maybe_enqueue` ends with the queue within the limit (so the fuel
 was enough: the loop left through its own exit condition), removes exactly the jobs `shed`,
@@ -126,7 +126,7 @@ theorem shedQueueOldest_spec (limit : Nat) (fuel : Nat) (w : W) (hf : w.queue.le
     ∃ shed : List Job,
       (W.shedQueueOldest limit fuel w).queue.length ≤ limit ∧
       w.queue.Perm (shed ++ (W.shedQueueOldest limit fuel w).queue) ∧
-      (W.shedQueueOldest limit fuel w).env.log = w.env.log ++ shed.map (loadshedEv w.env.hasHandler) ∧
+      (W.shedQueueOldest limit fuel w).env.log = w.env.log ++ shed.map (loadshedEv w.handler) ∧
       (W.shedQueueOldest limit fuel w).pool = w.pool ∧
       (w.queue.length ≤ limit → shed = []) := by
   induction fuel generalizing w with
@@ -149,7 +149,7 @@ theorem shedQueueOldest_spec (limit : Nat) (fuel : Nat) (w : W) (hf : w.queue.le
         have hlen := popByPrio_length (show popByPrio w.cfg prioDown w.queue = some (j, q) from hd)
         have hperm := popByPrio_perm (show popByPrio w.cfg prioDown w.queue = some (j, q) from hd)
         obtain ⟨shed, h1, h2, h3, h4, _⟩ :=
-          ih { w with queue := q, env := w.env.discard .loadshed j } (by simp only; omega)
+          ih { w with queue := q, env := w.env.discard w.handler .loadshed j } (by simp only; omega)
         refine ⟨j :: shed, h1, ?_, ?_, h4, fun hle => by omega⟩
         · exact hperm.trans (by simpa using h2.cons j)
         · rw [h3]
@@ -215,7 +215,7 @@ theorem maybeEnqueue_newest_discardable (w : W) (j : Job) (L : Nat) (hd : w.disc
 theorem maybeEnqueue_newest_shed (w : W) (j : Job) (L : Nat) (hd : w.disc = some (L, .newest))
     (hdisc : discardable w.cfg j = true) (hfull : L ≤ w.queue.length) :
     (w.maybeEnqueue j).queue = w.queue ∧
-    (w.maybeEnqueue j).env.log = w.env.log ++ [loadshedEv w.env.hasHandler j] ++ (if j.port then [Ev.reply j.id true] else []) := by
+    (w.maybeEnqueue j).env.log = w.env.log ++ [loadshedEv w.handler j] ++ (if j.port then [Ev.reply j.id true] else []) := by
   unfold W.maybeEnqueue
   simp only [hd, hdisc, Bool.true_and, decide_eq_true_eq.mpr hfull, if_true, true_and]
   unfold Env.reject Env.discard Env.emit loadshedEv
@@ -226,14 +226,12 @@ theorem maybeEnqueue_newest_shed (w : W) (j : Job) (L : Nat) (hd : w.disc = some
 theorem maybeEnqueue_oldest_shed (w : W) (j : Job) (L : Nat) (hd : w.disc = some (L, .oldest)) :
     ∃ shed : List Job,
       (w.queue ++ [{ j with port := false }]).Perm (shed ++ (w.maybeEnqueue j).queue) ∧
-      (w.maybeEnqueue j).env.log = (w.env.accept j).log ++ shed.map (loadshedEv w.env.hasHandler) := by
+      (w.maybeEnqueue j).env.log = (w.env.accept j).log ++ shed.map (loadshedEv w.handler) := by
   rw [maybeEnqueue_oldest_eq w j L hd]
-  have hh : (w.env.accept j).hasHandler = w.env.hasHandler := by
-    unfold Env.accept Env.emit; split <;> rfl
   obtain ⟨shed, _, h2, h3, _⟩ := shedQueueOldest_spec L ((w.queue ++ [{ j with port := false }]).length + 1)
     { w with env := w.env.accept j, queue := w.queue ++ [{ j with port := false }] }
     (by show (w.queue ++ [_]).length ≤ _; omega)
-  exact ⟨shed, h2, by rw [h3]; simp only [hh]⟩
+  exact ⟨shed, h2, by rw [h3]⟩
 
 end Factory
 
@@ -241,19 +239,19 @@ namespace Factory
 
 /-! ### worker queues: `enqueue_job` -/
 
-theorem getNextNonExpired_length (mq : List Job) (pend : List Nat) (e : Env) :
-    (getNextNonExpired mq pend e).2.1.length + (getNextNonExpired mq pend e).1.toList.length ≤ mq.length := by
+theorem getNextNonExpired_length {h : Option Nat} (mq : List Job) (pend : List Nat) (e : Env) :
+    (getNextNonExpired h mq pend e).2.1.length + (getNextNonExpired h mq pend e).1.toList.length ≤ mq.length := by
   induction mq generalizing pend e with
   | nil => simp [getNextNonExpired]
   | cons j rest ih =>
     unfold getNextNonExpired
     split
     · simp
-    · have := ih (pend.erase j.key) (e.discard .ttlExpired j)
+    · have := ih (pend.erase j.key) (e.discard h .ttlExpired j)
       simp only [List.length_cons]; omega
 
-theorem getNextNonExpired_actors (mq : List Job) (pend : List Nat) (e : Env) :
-    (getNextNonExpired mq pend e).2.2.2.actors = e.actors := by
+theorem getNextNonExpired_actors {h : Option Nat} (mq : List Job) (pend : List Nat) (e : Env) :
+    (getNextNonExpired h mq pend e).2.2.2.actors = e.actors := by
   induction mq generalizing pend e with
   | nil => rfl
   | cons j rest ih =>
@@ -288,8 +286,8 @@ theorem dispatchJob_open_mq (p : WP) (e : Env) (j : Job) (h : ActorOpen e p.acto
   unfold WP.dispatchJob Env.cast
   simp [h1, h2]
 
-theorem getNextNonExpired_none_nil (mq : List Job) (pend : List Nat) (e : Env)
-    (h : (getNextNonExpired mq pend e).1 = none) : (getNextNonExpired mq pend e).2.1 = [] := by
+theorem getNextNonExpired_none_nil {hd : Option Nat} (mq : List Job) (pend : List Nat) (e : Env)
+    (h : (getNextNonExpired hd mq pend e).1 = none) : (getNextNonExpired hd mq pend e).2.1 = [] := by
   induction mq generalizing pend e with
   | nil => rfl
   | cons j rest ih =>
